@@ -65,7 +65,7 @@ NlvShapes == { <<"plain", Nlv(<<LR(NilTag, "hello")>>)>>, <<"tagged1", Nlv(<<LR(
                <<"multi3", Nlv(<<LR("en", "hello"), LR("fr", "salut"), LR("de", "hallo")>>)>> }
 TimeShapes(gob) == { <<"utc", T(1700000000, 0, 0)>>, <<"plus2", T(1700003600, 0, 7200)>>, <<"minus7", T(1600000000, 0, 0 - 25200)>> }
                    \cup (IF gob THEN {<<"nanos", T(1700000001, 123456789, 3600)>>} ELSE {})
-DurShapes == { <<"pos", Dur(5)>>, <<"neg", Dur(0 - 5)>>, <<"hour", Dur(3725)>> }
+DurShapes == { <<"pos", Dur(5)>>, <<"neg", Dur(0 - 5)>>, <<"hour", Dur(3725)>>, <<"day", Dur(86400)>>, <<"neg3days", Dur(0 - 259200)>>, <<"dayhour", Dur(90000)>> }
 UintShapes == { <<"one", Int(1)>>, <<"big", Int(123456)>> }
 IntShapes == { <<"pos", Int(12)>>, <<"neg", Int(0 - 12)>> }
 FloatShapes == { <<"pos", Flt("36.75")>>, <<"neg", Flt("-122.5")>>, <<"small", Flt("0.000001")>>, <<"whole", Flt("100")>> }
